@@ -51,6 +51,9 @@ void *bsearch(const void *key, const void *base,
 	char *left = (char *)base,
 		*right = (char *)base + size * nmemb,
 		*mid;
+	if (nmemb == 0) {
+		return NULL;
+	}
 	while (left + size < right) {
 		mid = left + ((right - left) / (size << 1) * size);
 		if (compar(key, mid) < 0) {
